@@ -78,13 +78,22 @@ def keyProblem (text : Str) : Option String :=
   | some op => keysOracle 64 op.selections
   | none => none
 
+/-- `{` followed by nothing but spaces / commas and `}` -/
+def hasEmptyBraces : Str → Bool
+  | [] => false
+  | 123 :: rest =>
+    (match rest.dropWhile (fun c => c == 32 || c == 10 || c == 44) with
+     | 125 :: _ => true
+     | _ => false) || hasEmptyBraces rest
+  | _ :: rest => hasEmptyBraces rest
+
 /-- verdict for one operation text (the value node obtained) -/
 def c09Text (schema : VSchema) (text : Str) : String :=
   match parseDoc text with
   | none =>
     match keyProblem text with
     | some k => "bad:" ++ k
-    | none => "bad:parse:other"
+    | none => if hasEmptyBraces text then "bad:parse:empty-selection-set" else "bad:parse:other"
   | some doc =>
     match validate schema doc with
     | [] => "ok"
